@@ -54,7 +54,7 @@ H={
 'C05-10':'missed at first (octet 2 of 5GMM test messages was always 0; nested messages started at the first content octet). Nested messages behind 1..3 leading octets; every canonical corpus PDU with security header type nibble 0..4 must be accepted',
 'C09-10':'missed at first. SetLen of a Buffer-backed element must hand out storage outside the memory of the Buffer it replaces (address ranges)',
 'C10-9':'missed at first (inputs always had 16 octets of spare capacity; truncation of the last element was random). Half of the inputs sit in slices of exactly their length; corpus kind last-element-short (every optional element last and 1..2 octets short behind all the others)',
-'C10-10':'NOT detected by the C10 check and not detectable by its oracles: the write stores the value that is already there. C19\'s race detector reports it (data-race: LADNInformation.GetLen <-> GetLen) — run `selftest/mut.sh seeded/C10-10/patch.diff C19`',
+'C10-10':'missed at first and not detectable by the functional oracles of C10 (the write stores the value that is already there). Since the sixth wave the race side run of C10 (shared-encode cold units: goroutines encoding one shared message) reports it as data-race: LADNInformation.GetLen <-> GetLen',
 'C11-10':'missed at first (C11 was sequential). concurrent-private: eight workers, a Count and a model each, 2 000 000 steps; plus a cold-concurrent unit',
 'C12-9':'missed at first (C12 read the accessors only). 5G-S-TMSI and 5G-GUTI are also built through the setters in all six orders, from zeroed and from all-ones fields',
 'C12-10':'missed at first. shared-input: eight workers converting the same wire octets (GUTI, SUCI, PEI, PLMN, and the getter of an element holding the same slice)',
